@@ -3,7 +3,9 @@
 (* matrix.  Every binary operator applied to every pair of operand kinds,    *)
 (* every unary operator to every kind, every cast from every kind to every   *)
 (* scalar type, every postfix form (tuple index, field, array index) to every *)
-(* kind - in the initialiser of an un-annotated let, i.e. where only         *)
+(* kind, every pattern form against every kind of scrutinee (in a match with *)
+(* a wildcard clause) - in the initialiser of an un-annotated let, i.e. where *)
+(* only                                                                      *)
 (* the operator rule decides.  The check builds the AST and the text of each *)
 (* case; GarbleTypes.WellTyped decides which must be accepted and which      *)
 (* rejected (Trace_Types.tla); none may crash the front end.                 *)
@@ -16,6 +18,10 @@ Cases == {[form |-> "bin", op |-> o, l |-> x, r |-> y] : o \in BinOps, x \in Kin
          \cup {[form |-> "un", op |-> o, l |-> x, r |-> "-"] : o \in UnOps, x \in Kinds}
          \cup {[form |-> "cast", op |-> tgt, l |-> x, r |-> "-"] : tgt \in Targets, x \in Kinds}
          \cup {[form |-> "postfix", op |-> o, l |-> x, r |-> "-"] : o \in {"tup0", "tup1", "tup2", "field_x", "field_y", "index0", "index_u8", "index_var"}, x \in Kinds}
+         \cup {[form |-> "match", op |-> o, l |-> x, r |-> "-"] :
+                 o \in {"p_true", "p_u8", "p_i8", "p_range_u8", "p_range_i16", "p_tuple2", "p_tuple3", "p_struct", "p_struct_unknown_field", "p_struct_missing_field",
+                        "p_enum_unit", "p_enum_tuple", "p_enum_arity", "p_enum_unknown", "p_binder"},
+                 x \in Kinds \ {"lt", "lu", "li"}}
          \cup {[form |-> "opassign", op |-> o, l |-> x, r |-> y] : o \in BinOps \ {"lt", "gt", "le", "ge", "eq", "ne", "land", "lor"}, x \in Kinds \ {"lt", "lu", "li"}, y \in Kinds}
 VARIABLE c
 Init == c \in Cases
